@@ -371,6 +371,167 @@ def check_marker_sentinel(ctx, F):
                 'a top word equal to 1 is data here and is dropped from the output' if seed == 'data' else 'the marker is written out as if it were data'), key=key, loc=rules.loc(exp))
 
 
+class _Unknown(Exception):
+    pass
+
+
+def _eval_bitlen(t, k):
+    """Abstract value of term t for a remainders head of bit length 1 + k*W (marker above k whole words):
+    ('num', affine over {W, S}) | ('bl', affine bit length) | ('zero',).  Raises _Unknown."""
+    W, S = ('c', '<Word as BitArray>::BITS'), ('c', '<State as BitArray>::BITS')
+    aW = ({sym.tkey(W): (1, W)}, 0)
+
+    def num(a):
+        return ('num', a)
+
+    def scale(a, c):
+        return ({kk: (vv[0] * c, vv[1]) for kk, vv in a[0].items() if vv[0] * c}, a[1] * c)
+
+    def add(a, b, sign=1):
+        d = dict(a[0])
+        for kk, (c, at) in b[0].items():
+            c0 = d.get(kk, (0, at))[0]
+            d[kk] = (c0 + sign * c, at)
+        return ({kk: vv for kk, vv in d.items() if vv[0]}, a[1] + sign * b[1])
+
+    def sign_ge1(a):
+        # a >= 1 for all W >= 1, S >= 2W ?  decided only for forms c*W + n
+        ks = list(a[0].values())
+        if any(at != W for c, at in ks):
+            return None
+        c = ks[0][0] if ks else 0
+        n = a[1]
+        if c >= 0 and n >= 1:
+            return True
+        if c == 0:
+            return n >= 1
+        if c > 0 and c + n >= 1:
+            return True            # W >= 1
+        if c < 0 and n <= 1 + (-c) - 1 and c + n < 1:
+            return False           # c*W + n <= c + n < 1
+        return None
+    L = add(({}, 1), scale(aW, k))          # bit length of the head
+    h = t
+    if sym.is_int(t):
+        return num(({}, t[1]))
+    if t[0] == 'k':
+        return num(({}, 1 if t[1] == 'one' else 0)) if t[1] in ('one', 'zero') else (_ for _ in ()).throw(_Unknown(t[1]))
+    if t[0] == 'c':
+        if t in (W, S):
+            return num(({sym.tkey(t): (1, t)}, 0))
+        raise _Unknown('constant ' + t[1])
+    if t[0] == 'cast':
+        return _eval_bitlen(t[2], k)
+    if t[0] in ('in', 'loop') and tuple(x for x in (t[1] if t[0] == 'in' else t[2]) if isinstance(x, tuple))[-2:] == (('f', 'heads'), ('f', 'remainders')) and t[0] == 'in':
+        return ('bl', L)
+    if t[0] == 'call' and str(t[1]).endswith('leading_zeros'):
+        v = _eval_bitlen(t[2][0], k)
+        if v[0] == 'bl':
+            return num(add(({sym.tkey(S): (1, S)}, 0), v[1], -1))
+        raise _Unknown('leading_zeros of a non-head value')
+    if t[0] == 'call' and str(t[1]).endswith('::is_whole'):
+        return num(({}, 1))
+    if t[0] == 'bin':
+        op = t[1].split('.')[0]
+        a, b = _eval_bitlen(t[2], k), _eval_bitlen(t[3], k)
+        if op in ('Add', 'Sub') and a[0] == b[0] == 'num':
+            return num(add(a[1], b[1], 1 if op == 'Add' else -1))
+        if op == 'Rem' and a[0] == b[0] == 'num':
+            # (c * b) % b == 0
+            if not b[1][0] and b[1][1] == 0:
+                raise _Unknown('modulo zero')
+            if b[1] == aW and all(at == W for c, at in a[1][0].values()) and a[1][1] == 0:
+                return num(({}, 0))
+            if not a[1][0] and a[1][1] == 0:
+                return num(({}, 0))
+            raise _Unknown('remainder not decided')
+        if op == 'Shr' and a[0] == 'bl' and b[0] == 'num':
+            rest = add(a[1], b[1], -1)
+            ge = sign_ge1(rest)
+            if ge is True:
+                return ('bl', rest)
+            if ge is False:
+                return ('zero',)
+            raise _Unknown('shift result not decided')
+        if op in ('Eq', 'Ne', 'Lt', 'Le'):
+            def as_class(v):
+                # -> ('exact', n) | ('ge2',) | None
+                if v[0] == 'zero':
+                    return ('exact', 0)
+                if v[0] == 'num' and not v[1][0]:
+                    return ('exact', v[1][1])
+                if v[0] == 'bl':
+                    if not v[1][0] and v[1][1] == 1:
+                        return ('exact', 1)
+                    g = sign_ge1(add(v[1], ({}, 1), -1))
+                    if g is True:
+                        return ('ge2',)
+                return None
+            ca, cb = as_class(a), as_class(b)
+            if a[0] == b[0] == 'num':
+                d = add(a[1], b[1], -1)
+                if not d[0]:
+                    r = {'Eq': d[1] == 0, 'Ne': d[1] != 0, 'Lt': d[1] < 0, 'Le': d[1] <= 0}[op]
+                    return num(({}, int(r)))
+                if sign_ge1(d) is True:            # a > b for all widths
+                    return num(({}, int({'Eq': False, 'Ne': True, 'Lt': False, 'Le': False}[op])))
+                if sign_ge1(scale(d, -1)) is True:   # a < b
+                    return num(({}, int({'Eq': False, 'Ne': True, 'Lt': True, 'Le': True}[op])))
+            if ca and cb:
+                if ca[0] == 'exact' and cb[0] == 'exact':
+                    x, y = ca[1], cb[1]
+                    return num(({}, int({'Eq': x == y, 'Ne': x != y, 'Lt': x < y, 'Le': x <= y}[op])))
+                if ca[0] == 'ge2' and cb[0] == 'exact' and cb[1] <= 1:
+                    return num(({}, int({'Eq': False, 'Ne': True, 'Lt': False, 'Le': False}[op])))
+                if cb[0] == 'ge2' and ca[0] == 'exact' and ca[1] <= 1:
+                    return num(({}, int({'Eq': False, 'Ne': True, 'Lt': True, 'Le': True}[op])))
+            raise _Unknown('comparison not decided')
+    raise _Unknown('term ' + sym.show(t)[:50])
+
+
+def check_binary_alignment(ctx, F):
+    """into_binary() accepts every remainders head that from_binary() can have produced.
+
+    from_binary seeds the head with the marker 1 and shifts whole words in (checked by the marker rule), so after k words the
+    head has bit length 1 + k*W, for every k from 0 to State::BITS/Word::BITS - 1.  The refusing exits of into_binary are
+    evaluated over that family (k = 0, 1, 2, 3) in a small abstract domain (exact affine numbers / values of known bit
+    length): no refusing exit may be taken, provided the coder is whole (the compressed head is 1)."""
+    key = 'R6/binary-alignment/' + CHAIN
+    role = 'into_binary accepts every head from_binary can produce (marker above k whole words, any k)'
+    exp = method_of(F, 'into_binary')
+    if exp is None:
+        return ctx.unresolved('R6', role, CHAIN, 'into_binary not found', key=key)
+    ev, paths = rules.evaluate(exp)
+    ctx.touch(exp)
+    refusing = [r for r in paths or [] if r.end == 'return' and r.ret is not None and r.ret[0] == 'agg' and r.ret[1][-1] == 'Err' and not any(e['kind'] == 'call' and e.get('uid') is not None for e in r.events)]
+    if not refusing:
+        return ctx.unresolved('R6', role, exp.defpath, 'no refusing exit found', key=key)
+    unknown = None
+    for k in (0, 1, 2, 3):
+        for r in refusing:
+            taken = True
+            for t, v, _ in r.preds:
+                try:
+                    val = _eval_bitlen(t, k)
+                except _Unknown as u:
+                    unknown = str(u)
+                    taken = None
+                    break
+                if not (val[0] == 'num' and not val[1][0]):
+                    unknown = 'predicate value not constant'
+                    taken = None
+                    break
+                if bool(val[1][1]) != bool(v):
+                    taken = False
+                    break
+            if taken:
+                return ctx.bad('R6', role, exp.defpath, 'with %d whole word(s) above the marker (bit length of the head 1 + %d*Word::BITS) into_binary takes a refusing exit (%s): data imported with from_binary and re-encoded correctly is rejected for this head size '
+                               '(e.g. State wider than two Words, or PRECISION == Word::BITS)' % (k, k, '; '.join('%s = %s' % (sym.show(t)[:70], v) for t, v, _ in r.preds[-2:])), key=key, loc=rules.loc(exp))
+    if unknown:
+        return ctx.unresolved('R6', role, exp.defpath, 'a refusing exit could not be evaluated over the bit-length model: ' + unknown, key=key)
+    return ctx.ok('R6', role, exp.defpath, '%d refusing exit(s) evaluated for heads with 0..3 whole words above the marker: none is taken when the coder is whole' % len(refusing), key=key)
+
+
 def method_of(F, name):
     out = [b for b in F.bodies if b.promoted is None and b.name == name and b.self_adt == CHAIN and b.dk == 'AssocFn' and b.impl_trait is None]
     return out[0] if out else None
@@ -382,6 +543,7 @@ def run(ctx):
     check_precision_changers(ctx, F)
     check_heads_closed(ctx, F)
     check_marker_sentinel(ctx, F)
+    check_binary_alignment(ctx, F)
     import props.C04 as c04
     c04.check_top_word_nonzero(ctx, F, method_of(F, 'from_compressed'), CHAIN + '::from_compressed', 'into_compressed')
     check_head_guards(ctx, F)
